@@ -399,11 +399,13 @@ func (v *FetchScopeVariables) Add(s context.Scope, name string, val value.Value)
 			return errors.WithStack(err)
 		}
 		v.ctx.BackendRequest.Header.Add(match[1], val.String())
+		v.ctx.BackendRequest.Assign(match[1])
 	} else if match := backendResponseHttpHeaderRegex.FindStringSubmatch(name); match != nil {
 		if err := limitations.CheckProtectedHeader(match[1]); err != nil {
 			return errors.WithStack(err)
 		}
 		v.ctx.BackendResponse.Header.Add(match[1], val.String())
+		v.ctx.BackendResponse.Assign(match[1])
 	} else {
 		return v.base.Add(s, name, val)
 	}
